@@ -7,7 +7,8 @@ chk('C02', 'exploration',
     'fixed 4-D file.  Search cannot establish absence; evidence reports the '
     'number of distinct non-trivial cases.',
     'numpy take/slice semantics are the trusted reference; files up to 5 '
-    'dims of length <=5; empty index lists excluded.',
+    'dims of length <=5 (plus enumerated selections on a 48x80x90 file whose '
+    'results exceed 1 MiB); empty index lists and boolean masks excluded.',
     'property-based testing (Hypothesis) against a numpy reference model + '
     'enumeration of selector-kind combinations',
     'DESIGN.md 7 C02')
@@ -31,9 +32,13 @@ chk('C15', 'exploration',
     'compared with an empty-history reference taken in a fresh interpreter '
     '(fixed pool) or directly after restoring the registry (generated '
     'netCDF files); auto-detected vs explicitly named format compared for '
-    'every file touched.',
+    'every file touched (reader class too where the last extension names a '
+    'reader); "many" steps open one file 80 times under a descriptor '
+    'budget; mid-session reader registration; rewritten paths.',
     'Histories are sampled (depth <=12); binary/text formats are represented '
-    'by the repository samples, netCDF and IOAPI content is generated; state '
+    'by the repository samples (plus delimiter variants of the ICARTT sample '
+    'and one reference-encoded uamiv/lateral_boundary file per case), netCDF '
+    'and IOAPI content is generated; repetition is explored to 80 opens; state '
     'outside the reader registry that is not reset between cases would only '
     'be seen through the fresh-interpreter references.',
     'stateful property-based testing (Hypothesis-generated open histories) '
